@@ -24,7 +24,7 @@ import (
 // C05 — thread-safe and pure.
 //
 // Monitor 1 (race run): a race-instrumented build of the same harness runs G
-// goroutines over a small shared input set (320 inputs; thorough 2000) with no synchronisation between
+// goroutines over a shared input set (1600 inputs; thorough 4000: rare-branch inputs, every prefix of ten rich inputs, near-duplicate families differing in one byte, every hand-written seed) with no synchronisation between
 // the start barrier and the final join (results go to goroutine-private
 // buffers), so the detector sees every unordered pair of accesses the library
 // makes. Reports are counted in the GORACE log, never taken from exit codes.
@@ -66,6 +66,9 @@ func c05Inputs(n int, seed uint64) []string {
 		"<set attributename=onclick>", "<sc\x00ript>", "<a on\x00click=x>", "myvar=onfoobar==", "onY29va2llcw==", "plain text with ' and \" and `", "<a b='c' d=\"e\" f=`g` h=i>", "</a></b></c>", "&#x1000100;&#1114112;",
 		strings.Repeat("a b ", 1024), strings.Repeat("1+", 2048), strings.Repeat("<a b=c ", 600), strings.Repeat("'a' ", 512) + "or 1=1", strings.Repeat("/", 4096), strings.Repeat("<!-- - ", 512),
 		strings.Repeat("select ", 256), strings.Repeat("x' ", 300) + "onclick=1", "",
+		// rare-branch inputs: the sp_password rule, whitelist exceptions, evil tokens
+		"x'--sp_password", "foo--sp_password", "foo--", "1 --sp_password", "1 /*sp_password*/", "x' or 1=1 -- sp_password", "1 union", "1 union --", "1c", "1/*", "1 /*", " 1--", "sexy and 17<18",
+		"42", "hello", "see above -- thanks", "1 /* note */", "it''s done /* note", "say \"\"hi\"\" --", "{`", "1 /*!0 or*/ 1", "1 /* /* */ */",
 	}
 	for _, s := range fixed {
 		add(s)
@@ -81,8 +84,35 @@ func c05Inputs(n int, seed uint64) []string {
 			add(rich[:i])
 		}
 	}
+	// near-duplicate families: same length, one byte different at every
+	// position. A result cache keyed too coarsely (length + sampled hash, a
+	// prefix, ...) hands one member another member's answer.
+	for _, base := range []string{
+		"<a href=\"javascript:alert(1)\" title=\"abcdefgh\">",
+		"1' union select 1,2,3 from information_schema.tables -- ",
+		"<img src=x onerror=alert(document.cookie) class=\"thumbnail large\" alt=\"picture of a cat on a sofa\">",
+	} {
+		for i := 0; i < len(base); i++ {
+			b := []byte(base)
+			if b[i] == 'x' {
+				b[i] = 'y'
+			} else {
+				b[i] = 'x'
+			}
+			add(string(b))
+		}
+		add(base)
+	}
 	r := core.NewRng(seed, "c05inputs")
 	cs, ch := gen.CorpusSQL(), gen.CorpusHTML()
+	// every hand-written seed: one input or more per lexical construct and rule
+	for k := 0; len(out) < n && k < len(gen.SQLSeeds)+len(gen.HTMLSeeds); k++ {
+		if k%2 == 0 && k/2 < len(gen.SQLSeeds) {
+			add(gen.SQLSeeds[k/2])
+		} else if k/2 < len(gen.HTMLSeeds) {
+			add(gen.HTMLSeeds[k/2])
+		}
+	}
 	for len(out) < n {
 		switch r.Intn(4) {
 		case 0:
@@ -261,7 +291,7 @@ func raceSignature(block string) string {
 func c05() *core.Check {
 	ch := &core.Check{
 		ID: "C05",
-		Rule: "race run: a race-instrumented build runs G goroutines (4/16/64) x GOMAXPROCS (2/4/16) hammering a small shared input set (320 inputs; thorough 2000) with IsSQLi and IsXSS mixed, random Gosched, and no synchronisation between start barrier and final join; report blocks are counted in the GORACE log and de-duplicated by outermost library frames. " +
+		Rule: "race run: a race-instrumented build runs G goroutines (4/16/64) x GOMAXPROCS (2/4/16) hammering a shared input set (1600 inputs; thorough 4000: rare-branch inputs, every prefix of ten rich inputs, near-duplicate families differing in one byte, every hand-written seed) with IsSQLi and IsXSS mixed, random Gosched, and no synchronisation between start barrier and final join; report blocks are counted in the GORACE log and de-duplicated by outermost library frames. " +
 			"history run: permuted / interleaved call histories in fresh child processes with per-goroutine event logs; offline checker: one result per (operation,input) across all histories, goroutines and repetitions, equal to the fresh-process reference (process whose only call is that input). " +
 			"Non-trivial = distinct (operation,input) pairs asked under at least two different predecessors or concurrently; evaluations = library calls made.",
 		Assumptions: []string{
@@ -305,9 +335,9 @@ func c05Run(r *core.Run) {
 		panic("C05: race-instrumented binary missing (VERIF_RACE_BIN)")
 	}
 	thorough := r.Tier == "thorough"
-	nInputs := 320
+	nInputs := 1600
 	if thorough {
-		nInputs = 2000
+		nInputs = 4000
 	}
 	inputs := c05Inputs(nInputs, r.Seed)
 	quoted := make([]string, len(inputs))
@@ -381,7 +411,7 @@ func c05Run(r *core.Run) {
 
 	// --- history runs (plain build) -------------------------------------
 	hist := 8
-	reps := 24
+	reps := 8
 	if thorough {
 		hist = 64
 		reps = 12
